@@ -229,6 +229,14 @@ class Interp:
 
     def implied(self, k):
         import re as _re
+        m2 = _re.match(r"^(.+\.spec_type) == SpecType\.(\w+)$", k)
+        if m2:
+            # an enum field equals at most one member
+            for ko, vo in self.oracle.items():
+                mo = _re.match(r"^(.+\.spec_type) == SpecType\.(\w+)$", ko)
+                if mo and mo.group(1) == m2.group(1) and mo.group(2) != m2.group(2) and vo:
+                    return False
+            return None
         m = _re.match(r"^isinstance\((.+), (\w+)\)$", k)
         if not m:
             return None
